@@ -118,3 +118,44 @@ def _rewrap(v, g):
                         _refunc(v.fset, g) if v.fset else None,
                         _refunc(v.fdel, g) if v.fdel else None)
     return v
+
+
+def rewrite_str_methods(func, glb, module=None, qualname=None):
+    """Re-compile ``func`` from its current source with calls of str methods
+    on *literals* (``"_".join(x)``, ``"{}".format(x)``) routed through shim
+    functions ``__sjoin__`` / ``__sformat__`` (a literal's method cannot be
+    re-bound through globals).  Everything else is unchanged."""
+    import ast
+    import inspect
+    import textwrap
+    src = textwrap.dedent(inspect.getsource(func))
+    from .common import _MUTANT
+    if (module, qualname) in _MUTANT:
+        old, new = _MUTANT[(module, qualname)]
+        if src.count(old) != 1:
+            raise RuntimeError("canary pattern %r occurs %d times" % (
+                old, src.count(old)))
+        src = src.replace(old, new)
+
+    class T(ast.NodeTransformer):
+        def visit_Call(self, node):
+            self.generic_visit(node)
+            f = node.func
+            if isinstance(f, ast.Attribute) and isinstance(
+                    f.value, ast.Constant) and isinstance(f.value.value, str) \
+                    and f.attr in ("join",):
+                return ast.copy_location(ast.Call(
+                    func=ast.Name(id="__s%s__" % f.attr, ctx=ast.Load()),
+                    args=[f.value] + node.args, keywords=node.keywords), node)
+            return node
+    tree = T().visit(ast.parse(src))
+    ast.fix_missing_locations(tree)
+    # drop decorators
+    tree.body[0].decorator_list = []
+    ns = {}
+    g = dict(func.__globals__)
+    g.update(glb)
+    import __future__
+    exec(compile(tree, inspect.getsourcefile(func) + ":rewritten", "exec",
+                 flags=__future__.annotations.compiler_flag), g, ns)
+    return ns[func.__name__]
